@@ -151,3 +151,30 @@ def strip_docstring(body):
     if body and isinstance(body[0], ast.Expr) and isinstance(body[0].value, ast.Constant) and isinstance(body[0].value.value, str):
         return body[1:]
     return body
+
+
+_FLIPOP = {ast.Lt: ast.Gt, ast.Gt: ast.Lt, ast.LtE: ast.GtE, ast.GtE: ast.LtE, ast.Eq: ast.Eq, ast.NotEq: ast.NotEq}
+
+
+def oriented(cmp_node, left_pred):
+    """(lhs, op, rhs) of a binary comparison, turned so that left_pred(lhs) holds (the operator is
+    mirrored when the operands are exchanged); None when neither side satisfies the predicate or
+    the node is not a single-operator comparison. Rules use this instead of relying on the
+    orientation in which a comparison happens to be written / canonicalised."""
+    if not (isinstance(cmp_node, ast.Compare) and len(cmp_node.ops) == 1):
+        return None
+    l, r, op = cmp_node.left, cmp_node.comparators[0], cmp_node.ops[0]
+    if left_pred(l):
+        return l, op, r
+    if left_pred(r) and type(op) in _FLIPOP:
+        return r, _FLIPOP[type(op)](), l
+    return None
+
+
+def cmp_text(cmp_node, left_pred):
+    """Text `lhs OP rhs` of a comparison oriented by left_pred, or None."""
+    o = oriented(cmp_node, left_pred)
+    if o is None:
+        return None
+    sym = {ast.Lt: "<", ast.Gt: ">", ast.LtE: "<=", ast.GtE: ">=", ast.Eq: "==", ast.NotEq: "!=", ast.Is: "is", ast.IsNot: "is not", ast.In: "in", ast.NotIn: "not in"}[type(o[1])]
+    return f"{ast.unparse(o[0])} {sym} {ast.unparse(o[2])}"
